@@ -609,14 +609,24 @@ func (t *tr) coerce(n *Node, k Kind, u Unit, pos token.Pos, what string) (*Node,
 type cont func(*env) (*Node, error)
 
 func (t *tr) isLoggerExpr(e ast.Expr, en *env) bool {
+	field := "" // the selector applied to the root of the chain
+
 	for {
 		switch x := e.(type) {
 		case *ast.CallExpr:
 			e = x.Fun
 		case *ast.SelectorExpr:
+			field = x.Sel.Name
 			e = x.X
 		case *ast.Ident:
 			if b, ok := en.m[x.Name]; ok {
+				if b.kind == bAlias && Text(b.alias) == "recv" && field != "" && t.fam.RecvType != "" {
+					// a chain that starts at a field of the receiver declared as a zerolog logger (`p.l.Debug()…`)
+					typ, err := t.pkg.StructField(t.fam.RecvType, field)
+
+					return err == nil && (typ == "zerolog.Logger" || typ == "*zerolog.Logger")
+				}
+
 				return b.kind == bOpaque && b.lean == "logger"
 			}
 
@@ -1392,6 +1402,21 @@ func (t *tr) expr(e ast.Expr, en *env) (*Node, error) {
 		return t.binary(x, en)
 	case *ast.CallExpr:
 		return t.call(x, en)
+	case *ast.TypeAssertExpr:
+		// `v.(T)` where the table gives the static type of v and T the same Lean type: the value itself (an assertion
+		// that fails is a Go panic the code rules out by construction - forcetypeassert; it is not modelled)
+		if x.Type != nil {
+			v, err := t.expr(x.X, en)
+			if err != nil {
+				return nil, err
+			}
+
+			if ts, ok := t.goType(x.Type, en.fr.file); ok && ts.same(v.Spec()) {
+				return v, nil
+			}
+
+			return nil, t.pkg.errorf(x.Pos(), "`%s`: the table does not give both types the same Lean type", Text(x))
+		}
 	case *ast.IndexExpr:
 		// `obj[i]`: an element of a slice the table knows as an object is the uninterpreted function `<obj>[]` of the
 		// index (what an index outside the slice does is not modelled: a Go panic)
